@@ -16,7 +16,7 @@ called only by import::execute_and_commit, which marks the height committed only
 called only from launch_stream, where a failed execution ends the batch; both the fetch stream and
 the execution stream are cut at the first failed batch (into_scan_err().scan_err(), whose state
 machine stops after an erroneous batch); (5) order: the only buffering combinator is the
-order-preserving `buffered`.
+order-preserving `buffered`. (6) get_headers_batch keeps a prefix of the zipped (header, expected height) pairs (take_while on height equality), expected heights come from the requested range, and a short batch is reported.
 """
 NOT_DECIDED = """Peer behaviour and timing; consecutive heights inside a batch rely on C27 and on
 get_headers_batch's height zip (checked here only as provenance)."""
